@@ -10,7 +10,8 @@ fn mov16(r: R16, v: u16) -> Item {
     Item::Ins(Ins::Mov(Loc::R16(r), Src::Imm(v)))
 }
 
-pub fn build(rng: &mut Rng) -> (Program, String) {
+/// `trap`: load the trap flag through POPF before the string instruction (single-stepping by trap flag)
+pub fn build(rng: &mut Rng, trap: bool) -> (Program, String) {
     let op = *rng.pick(&ALL_STR);
     let w = if rng.chance(1, 2) { W::B } else { W::W };
     let rep = if op.compares() { *rng.pick(&[Rep::None, Rep::Repe, Rep::Repne]) } else { *rng.pick(&[Rep::None, Rep::Rep]) };
@@ -42,30 +43,40 @@ pub fn build(rng: &mut Rng) -> (Program, String) {
         mov16(R16::SI, si),
         mov16(R16::DI, di),
         mov16(R16::CX, cx),
+    ];
+    if trap {
+        items.extend(vec![mov16(R16::AX, 0x0100 | (rng.u16() & 0x08D5)), Item::Ins(Ins::Push(Loc::R16(R16::AX))), Item::Ins(Ins::Simple("popf"))]);
+    }
+    items.extend(vec![
         mov16(R16::AX, 0x6261 + rng.below(3) as u16),
         Item::Ins(Ins::Simple(if df { "std" } else { "cld" })),
         Item::Ins(Ins::Str(rep, op, w)),
-    ];
+    ]);
     items.push(Item::Ins(Ins::Simple("cld")));
     let desc = format!("{}{} {} cx={} df={} es={:04x}", rep.ir(), op.name(), w.kw(), cx, df, es);
     (Program { data, items }, desc)
 }
 
 pub fn run(rep: &Report) {
-    let n = if rep.thorough() { 1500 } else { 60 };
+    let n = if rep.thorough() { 4500 } else { 240 };
     let seed = rep.seed;
     par_for(n, 1, |i| {
-        let core = i < 30;
+        let core = i < 90;
         let mut rng = if core { Rng::new(0xC07C).fork(i as u64) } else { Rng::new(seed).fork(0xC07C_0000 + i as u64) };
-        let (p, desc) = build(&mut rng);
+        // three ways to run the same kind of program: plain, single-stepped by -i, single-stepped by the trap flag
+        // (every prompt answered with n): the REP loop goes through the driver's REPEAT handling in each
+        let mode = ["plain", "interpreted", "trap-flag"][i % 3];
+        let (p, desc) = build(&mut rng, mode == "trap-flag");
+        let desc = format!("{} [{}]", desc, mode);
         let src = p.render_plain().text;
         let rr = ref_run(&p, 10_000);
-        let out = run_cli(src.as_bytes(), &CliOpts::default());
+        let nexts = b"n\n".repeat(800);
+        let out = run_cli(src.as_bytes(), &CliOpts { interpreted: mode == "interpreted", stdin: if mode == "plain" { b"" } else { &nexts }, cap: 32 << 20, ..Default::default() });
         rep.eval(1);
         let parsed = parse_records(&out.stdout);
         let fail = |sym: &str, what: String, extra: String| {
             rep.fail(Failure {
-                sig: format!("cli:string:{}", sym),
+                sig: if mode == "plain" { format!("cli:string:{}", sym) } else { format!("cli:string:{}:{}", mode, sym) },
                 what: format!("C07 CLI: {}", what),
                 witness: format!("{{\"kind\": \"cli\", \"source\": {}, \"case\": {}, \"status\": {}, \"detail\": {}}}", json_str(&src), json_str(&desc), json_str(&out.status_str()), json_str(&extra)),
                 core_item: if core { Some(format!("{}|{}", i, sym)) } else { None },
